@@ -329,3 +329,49 @@ def occupancy(spec, pi):
         if p0[s] > 0:
             reach0 |= rc[s]
     return [POS_INF if (rec[s] and s in reach0) else occ[s] for s in range(n)]
+
+
+def gain_of_policy(spec, pi):
+    """Exact long-run average reward (gain) of stochastic policy pi from every state.
+    Absorbing states are zero-reward closed classes (gain 0)."""
+    n = spec.n
+    P, r, A = chain_of(spec, pi)
+    adj = [{j for j in range(n) if P[i][j] > 0} for i in range(n)]
+    rc = reach_sets(adj, n)
+    rec = [s not in A and all(s in rc[t] for t in rc[s]) for s in range(n)]
+    g = [None] * n
+    for s in A:
+        g[s] = F(0)
+    done = set()
+    for s in range(n):
+        if rec[s] and s not in done:
+            cls = sorted(rc[s])
+            done |= set(cls)
+            k = len(cls)
+            # stationary distribution: mu (P_C - I) = 0, sum mu = 1
+            M = [[P[cls[j]][cls[i]] - (1 if i == j else 0) for j in range(k)] for i in range(k)]
+            M[-1] = [F(1)] * k
+            b = [F(0)] * (k - 1) + [F(1)]
+            mu = solve(M, b)
+            assert mu is not None
+            gc = sum((mu[i] * r[cls[i]] for i in range(k)), F(0))
+            for t in cls:
+                g[t] = gc
+    T = [s for s in range(n) if g[s] is None]
+    if T:
+        pos = {s: i for i, s in enumerate(T)}
+        M = [[(1 if i == j else 0) - P[s][t] for j, t in enumerate(T)] for i, s in enumerate(T)]
+        b = [sum((P[s][t] * g[t] for t in range(n) if g[t] is not None), F(0)) for s in T]
+        x = solve(M, b)
+        assert x is not None
+        for s in T:
+            g[s] = x[pos[s]]
+    return g
+
+
+def optimal_gain(spec):
+    best = None
+    for pi in det_policies(spec):
+        g = gain_of_policy(spec, pi)
+        best = g if best is None else [max(a, b) for a, b in zip(best, g)]
+    return best
